@@ -454,6 +454,7 @@ static void xts_case(const xtsfam_t *f, uint64_t c, int thorough)
         arena_reset(&r, len);
         uint8_t key1[32], key2[32], tw0[16];
         rng_fill(&r, key1, 32); rng_fill(&r, key2, 32); rng_fill(&r, tw0, 16);
+        if (c % 16 == 7) { memcpy(key2, key1, 32); out_count("xts_cases_with_equal_keys", 1); }    /* allowed outside FIPS mode: IEEE 1619 does not forbid it */
         int inplace = (int) rng_below(&r, 2);
         uint8_t *in = A(len, 64, rng_below(&r, 64)), *out = inplace ? in : A(len, 64, rng_below(&r, 64));
         uint8_t *src = A(len, 64, 0), *exp = A(len, 64, 0);
@@ -466,7 +467,7 @@ static void xts_case(const xtsfam_t *f, uint64_t c, int thorough)
                 ref_aes_expand(&a1, key1, ks_bits2[ks]); ref_aes_expand(&a2, key2, ks_bits2[ks]);
                 for (int dir = 0; dir < 2; dir++) {
                         if (len >= 16) {
-                                if (len <= 8192) ref_xts(&a1, &a2, !dir, tw0, src, exp, len);
+                                if (len <= 8192 || !memcmp(key1, key2, 32)) ref_xts(&a1, &a2, !dir, tw0, src, exp, len);      /* OpenSSL refuses identical XTS keys */
                                 else if (ossl_xts(ks_bits2[ks], !dir, key1, key2, tw0, src, exp, len)) out_err("OpenSSL XTS oracle failed");
                         }
                         for (int xp = 0; xp < 2; xp++) {
